@@ -40,6 +40,46 @@ def abstract_states(events):
     return sorted(seen)
 
 
+def probes(events):
+    """'This rare condition was hit' counters derived from the event log."""
+    out = {}
+
+    def hit(name):
+        out["probe:" + name] = out.get("probe:" + name, 0) + 1
+
+    running = 0
+    for ev in events:
+        k, p = ev[4], ev[5]
+        if k == "state":
+            if p["where"] == "aio_submit" and p["old"] == "READY" and p["new"] == "WAITING":
+                hit("start-aborted-lock-error")
+            elif p["where"] == "aio_submit" and p["new"] == "RUNNING":
+                hit("adopted-running-process")
+            elif p["where"] == "dependencychanged" and p["new"] == "ERROR":
+                hit("cancelled-by-failed-dependency")
+            elif p["where"] == "dependencychanged" and p["new"] == "READY" and p["old"] == "READY":
+                hit("notified-while-starting")
+        elif k == "flock-blocked":
+            hit("token-lock-contended" if p["path"].endswith("token.lock") else ("job-lock-contended" if p["path"].endswith(".lock") and "/jobs/" in p["path"] else "experiment-lock-contended"))
+        elif k == "submit-return" and p.get("dup") and p.get("first_state") == "ERROR":
+            hit("resubmit-after-error")
+        elif k == "spawn" and p.get("done"):
+            hit("launched-with-marker-present")
+        elif k == "body-start":
+            running += 1
+        elif k == "body-end":
+            running -= 1
+        elif k == "proc-killed" and p.get("kind") == "sched" and running > 0:
+            hit("scheduler-died-while-jobs-run")
+        elif k == "submit-call" and p.get("pidfile_alive"):
+            hit("submitted-while-running-elsewhere")
+        elif k == "cli-rmtree":
+            hit("cli-removed-folder")
+        elif k == "observer-died":
+            hit("observer-died")
+    return out
+
+
 def measure_lines(prop, seed, scn, replay, max_steps):
     """Traced line events executed by each simulated process when nobody crashes
     (forked child: identical pre-state, discarded afterwards)."""
@@ -112,6 +152,8 @@ def execute(prop, seed, scn=None, replay=None, full=False, tier="quick", max_ste
             key = "%s:%s" % (v["prop"], v["cls"])
             inc[key] = inc.get(key, 0) + 1
         counters = dict(r.k.counters)
+        for name, n in probes(events).items():
+            counters[name] = counters.get(name, 0) + n
         nfaults = sum(v for k, v in counters.items() if k.startswith(FAULT_PREFIX))
         nspawn = sum(1 for ev in events if ev[4] == "spawn")
         res = {
